@@ -69,7 +69,9 @@ def _spec(module):
             'units': {'cJSON.c': 'tables_bad.c', 'cJSON_Utils.c': 'utils_min.c'},
             'rules': [parse.tab4, parse.tab5a, codeset.tab6, parse.tab7, parse.c02_structure, parse.c03_structure, parse.tab21] +
                      [(lambda n_: (lambda units, R: parse.tab23(units, R, n_)))(n_) for n_ in (
-                         'bad_TAB23_scan_single', 'good_scan_forward', 'bad_TAB23_search_single', 'good_search_parity', 'bad_TAB23_search_inverted')],
+                         'bad_TAB23_scan_single', 'good_scan_forward', 'bad_TAB23_search_single', 'good_search_parity', 'bad_TAB23_search_inverted')] +
+                     [(lambda n_: (lambda units, R: parse.out9(units, R, n_)))(n_) for n_ in (
+                         'good_decode_fits', 'bad_OUT9_no_terminator', 'bad_OUT9_counts_plain', 'bad_OUT9_two_for_two')],
         }]
     if module == 'print':
         from . import outbuf, outsym, numcls
